@@ -241,7 +241,8 @@ PARAM_EXPRS = ["'v1'", "'boom'", "'ascending'", "'descending'", "'text'", "'uppe
 PARAM_EXPRS = [e for e in PARAM_EXPRS if " " not in e]
 PARAM_NUMS = ["5", "0", "-2.5", "1e3"]
 PARAM_OBJS = ["B:true", "B:false", "S:text", "S:boom"]
-GFUNCS = ["g1", "g2"]
+GFUNCS = ["g1", "g2", "f1"]          # f1 also exists as a local name: local wins while installed
+IMPLS = ["1", "2", "3"]
 CONFIGS = [("indent", ["0", "2", "7"]), ("enc", ["UTF-8", "ISO-8859-1", "US-ASCII", "UTF-16", "-"]), ("escurl", ["0", "1", "2"]),
            ("omitmeta", ["0", "1", "2"]), ("plistener", ["0", "1"]), ("tlistener", ["0", "1"])]
 KEYS = ["p1", "p2", "p3", "unused"]
@@ -265,7 +266,7 @@ def gen_history(r, maxops):
     n = r.range(2, maxops)
     aborted = False
     while len(ops) < n:
-        k = r.weighted([("compile", 5), ("parse", 4), ("setexpr", 5), ("setnum", 3), ("clear", 2), ("install", 2),
+        k = r.weighted([("compile", 5), ("parse", 4), ("setexpr", 5), ("setnum", 3), ("clear", 2), ("install", 3),
                         ("uninstall", 1), ("dsheet", 2), ("dsource", 2), ("transform", 12), ("transformsrc", 7),
                         ("compilebad", 1), ("parsebad", 1), ("setobj", 2), ("setnode", 2), ("ginstall", 1), ("guninstall", 1),
                         ("config", 4)])
@@ -291,7 +292,7 @@ def gen_history(r, maxops):
         elif k == "setnode":
             ops.append("setnode %s %s" % (r.choice(KEYS), r.choice(GOOD_SOURCES)))
         elif k == "ginstall":
-            ops.append("ginstall %s" % r.choice(GFUNCS))
+            ops.append("ginstall %s G%s" % (r.choice(GFUNCS), r.choice(IMPLS)))
         elif k == "guninstall":
             ops.append("guninstall %s" % r.choice(GFUNCS))
         elif k == "config":
@@ -300,7 +301,7 @@ def gen_history(r, maxops):
         elif k == "clear":
             ops.append("clearparams")
         elif k == "install":
-            ops.append("install %s" % r.choice(FUNCS))
+            ops.append("install %s L%s" % (r.choice(FUNCS), r.choice(IMPLS)))
         elif k == "uninstall":
             ops.append("uninstall %s" % r.choice(FUNCS))
         elif k == "dsheet":
@@ -350,11 +351,17 @@ def gen_session(r, maxops):
         ops.append("parse %d %s ok" % (i, so))
     n = r.range(4, maxops)
     while len(ops) < n + len(chosen) + len(srcs):
-        k = r.weighted([("transform", 14), ("setexpr", 3), ("setnum", 1), ("setobj", 1), ("clear", 1), ("config", 2), ("install", 1),
-                        ("uninstall", 1), ("transformsrc", 2)])
+        k = r.weighted([("transform", 14), ("setexpr", 3), ("setnum", 1), ("setobj", 1), ("clear", 1), ("config", 2), ("install", 2),
+                        ("uninstall", 1), ("transformsrc", 2), ("ginstall", 1), ("guninstall", 1), ("transformfl", 4)])
         seed = r.below(100000)
         if k == "transform":
             ops.append("transform %d %d %d" % (r.below(len(chosen)), r.below(len(srcs)), seed))
+        elif k == "transformfl":
+            ops.append("transformfl %d %d %d" % (r.below(len(chosen)), r.below(len(srcs)), seed))
+        elif k == "ginstall":
+            ops.append("ginstall %s G%s" % (r.choice(GFUNCS), r.choice(IMPLS)))
+        elif k == "guninstall":
+            ops.append("guninstall %s" % r.choice(GFUNCS))
         elif k == "transformsrc":
             ops.append("transformsrc %s %s %d" % (r.choice(GOOD_SHEETS), r.choice(srcs), seed))
         elif k == "setexpr":
@@ -369,7 +376,7 @@ def gen_session(r, maxops):
             cn, vs = r.choice(CONFIGS)
             ops.append("config %s %s" % (cn, r.choice(vs)))
         elif k == "install":
-            ops.append("install %s" % r.choice(FUNCS))
+            ops.append("install %s L%s" % (r.choice(FUNCS), r.choice(IMPLS)))
         elif k == "uninstall":
             ops.append("uninstall %s" % r.choice(FUNCS))
     return ops
@@ -400,6 +407,20 @@ CORPUS = [
                                              for i, k in enumerate(sorted(_SYMS)) if k != "base"], [])),
     ("output-property-pairs", ["compile 0 out_decl ok", "parse 0 d1 ok"] + sum([["transformsrc out_%s d1 %d" % (k, i), "transform 0 0 %d" % i]
                                                                                 for i, k in enumerate(sorted(_OUTS)) if k != "decl"], [])),
+    # seeded break H: a second install under an installed name ignored (map insert instead of assignment); and the
+    # configuration alphabet with repeats / overrides / removals, local and process-wide
+    ("function-reinstall", ["install f1 L1", "transformsrc obs d1 1", "install f1 L2", "transformsrc obs d1 2", "install f2 L1", "install f1 L3",
+                            "transformsrc obs d1 3", "uninstall f1", "transformsrc obs d1 4", "install f1 L1", "transformsrc obs d1 5",
+                            "ginstall f1 G1", "transformsrc obs d1 6", "uninstall f1", "transformsrc obs d1 7", "ginstall f1 G2", "ginstall g1 G1",
+                            "transformsrc obs d1 8", "ginstall g1 G3", "transformsrc obs d1 9", "guninstall f1", "guninstall g1", "transformsrc obs d1 10"]),
+    ("config-overrides", ["config indent 2", "config indent 7", "config enc UTF-16", "config enc ISO-8859-1", "config escurl 1", "config escurl 2",
+                          "config omitmeta 1", "config omitmeta 2", "config plistener 1", "config plistener 0", "config plistener 1", "config tlistener 1",
+                          "config tlistener 0", "transformsrc obs_html d1 1", "transformsrc obs_ind d1 2", "config enc -", "config indent 0",
+                          "config tlistener 1", "transformsrc obs_ind d1 3", "transformsrc msg_deep d1 4", "transformsrc obs_html d1 5"]),
+    # seeded break G: cleanUpTransients skipped when the target is a caller-supplied FormatterListener
+    ("formatter-listener-target", ["compile 0 obs_text ok", "compile 1 num_any_all ok", "parse 0 d4 ok", "parse 1 d1 ok", "transformfl 0 0 1", "transformfl 1 0 2",
+                                   "dsource 0", "parse 0 d2 ok", "transformfl 0 0 3", "transformfl 1 0 4", "transform 0 0 5", "transformfl 0 1 6",
+                                   "dsource 1", "parse 1 d4 ok", "transformfl 1 1 7", "transformfl 0 1 8", "transform 1 1 9"]),
     ("param-overwrite", ["setexpr p1 'a'", "setnum p1 5", "transformsrc obs d1 1"]),
     ("param-overwrite-2", ["setnum p1 5", "setexpr p1 'a'", "setnum p1 7", "compile 0 obs ok", "parse 0 d1 ok", "transform 0 0 2"]),
     # abort at depth, then observe with another source at (very likely) the same address
@@ -408,7 +429,7 @@ CORPUS = [
     ("strip-then-nostrip", ["transformsrc obs_strip d1 1", "transformsrc obs d1 2", "transformsrc obs_strip d3 3", "transformsrc obs d3 4"]),
     ("keys-stale-doc", ["compile 0 obs ok", "parse 0 d1 ok", "transform 0 0 1", "dsource 0", "parse 0 d2 ok", "transform 0 0 2"]),
     ("every-aborter", sum([["transformsrc %s d1 %d" % (s, i), "transformsrc obs d2 %d" % i] for i, s in enumerate(ABORTERS)], [])),
-    ("sticky-through-abort", ["setexpr p2 'boom'", "setexpr p1 'v'", "install f1", "transformsrc sw_msg d1 1", "transformsrc obs d1 2",
+    ("sticky-through-abort", ["setexpr p2 'boom'", "setexpr p1 'v'", "install f1 L1", "transformsrc sw_msg d1 1", "transformsrc obs d1 2",
                               "clearparams", "transformsrc sw_msg d1 3", "uninstall f1", "transformsrc sw_fn d1 4", "transformsrc obs d2 5"]),
     ("all-param-kinds-between-aborts", ["setexpr p1 'e'", "setnum p2 5", "setobj p3 B:true", "transformsrc msg_deep d1 1", "transformsrc obs d1 2",
                                         "setnode p3 d3", "setobj p1 S:boom", "transformsrc sw_xperr d2 3", "clearparams", "transformsrc obs d2 4",
@@ -416,7 +437,7 @@ CORPUS = [
     ("config-sticky", ["config indent 7", "config enc ISO-8859-1", "config escurl 2", "config omitmeta 2", "config plistener 1", "config tlistener 1",
                        "transformsrc obs_html d1 1", "transformsrc msg_deep d1 2", "transformsrc obs_ind d2 3", "transformsrc obs_html d2 4",
                        "config plistener 0", "config tlistener 0", "config enc -", "transformsrc obs_ind d1 5", "transformsrc obs_html d1 6"]),
-    ("global-functions", ["ginstall g1", "transformsrc obs d1 1", "install f1", "ginstall g2", "transformsrc msg_deep d1 2", "transformsrc obs d1 3",
+    ("global-functions", ["ginstall g1 G1", "transformsrc obs d1 1", "install f1 L1", "ginstall g2 G1", "transformsrc msg_deep d1 2", "transformsrc obs d1 3",
                           "guninstall g1", "transformsrc obs d1 4", "uninstall f1", "guninstall g2", "transformsrc obs d1 5"]),
     ("slot-reuse", ["compile 0 obs ok", "parse 0 d1 ok", "transform 0 0 1", "dsheet 0", "compile 0 msg_deep ok", "transform 0 0 2", "dsheet 0",
                     "compile 0 obs_strip ok", "dsource 0", "parse 0 d2 ok", "transform 0 0 3", "compile 1 obs ok", "transform 1 0 4", "dsource 0",
